@@ -307,6 +307,14 @@ func (e *Env) coerce(v Val, to types.Type) Val {
 		}
 		return Val{T: v.Const.String(), Ty: to}
 	}
+	if e.tr.smt.sortOf(to) == "F64" {
+		// an integer literal compared with a floating-point value (w > 0): floats are reals in the model
+		e.tr.floatUsed = true
+		if v.Const.Sign() < 0 {
+			return Val{T: fmt.Sprintf("(- %s.0)", new(big.Int).Neg(v.Const).String()), Ty: to}
+		}
+		return Val{T: v.Const.String() + ".0", Ty: to}
+	}
 	if !isInteger(to) {
 		e.fail("integer constant used with non-integer type %s", to)
 	}
@@ -850,6 +858,16 @@ func (e *Env) binary(x *Expr) Val {
 	if !isInteger(a.Ty) {
 		if tr.smt.sortOf(a.Ty) == "Bool" {
 			e.fail("operator %s on booleans", op)
+		}
+		if tr.smt.sortOf(a.Ty) == "F64" && tr.smt.sortOf(b.Ty) == "F64" {
+			// floating-point values are reals in the model (as in the code's own arithmetic)
+			tr.floatUsed = true
+			switch op {
+			case "<", "<=", ">", ">=":
+				return Val{T: fmt.Sprintf("(%s %s %s)", op, a.T, b.T), Ty: boolT}
+			case "+", "-", "*":
+				return Val{T: fmt.Sprintf("(%s %s %s)", op, a.T, b.T), Ty: a.Ty}
+			}
 		}
 		if op == "+" && tr.smt.sortOf(a.Ty) == "Str" && tr.smt.sortOf(b.Ty) == "Str" {
 			// string concatenation: the same term the code's own concatenation of these operands gives
